@@ -550,6 +550,48 @@ def c06(ctx):
                 ctx.violation('spec', f'a failed or unsaved update has written to the tree: {what}',
                               {'meta': {k2: v for k2, v in c.meta.items() if k2 != 'paths'}, 'ops': c.ops, 'faults': c.faults, 'tree': describe(c.tree)})
     ctx.cov['engines']['tree:faults-update'].update(runs_ending_with_the_injected_error=hit2, runs_that_wrote_without_save=wrote)
+    cli_unreadable_outer(ctx)
+
+
+def cli_unreadable_outer(ctx):
+    """the command-line tool started on a sub-directory that has a Manifest of its own, while the Manifest of an outer directory
+    cannot be opened (it is a directory / a symlink loop): the run must not succeed against the inner Manifest alone"""
+    r = ctx.rng('c06cli')
+    n = done = 0
+    with ET.Scratch() as sc:
+        for _ in range(120 if ctx.tier == 'quick' else 1200):
+            c = GT.Case()
+            t, files, written = GT.build_consistent(r, c, nfiles=r.randint(2, 6), allow_multi=False)
+            subs = sorted({os.path.dirname(m) for m in written if os.path.dirname(m)})
+            if not subs:
+                continue
+            d = r.choice(subs)
+            how = r.choice(['directory', 'symlink-loop'])
+            root = t.lookup('')
+            t.unlink(root, 'Manifest')
+            if how == 'directory':
+                t.add_dir('Manifest')
+            else:
+                t.link(root, 'Manifest', ('e', 'ELOOP'))
+            b, s2 = sc.fresh()
+            try:
+                t.realise(b, s2)
+                if not os.path.isdir(os.path.join(b, d)):
+                    continue
+                with ET.ScandirOrder(GT.order_key_for(0)):
+                    rc, items = run_cli_collect(['gemato', 'verify', '--no-openpgp-verify', os.path.join(b, d)])
+                    rc2, items2 = run_cli_collect(['gemato', 'verify', '--keep-going', '--no-openpgp-verify', os.path.join(b, d)])
+            finally:
+                sc.cleanup(b, s2)
+            n += 1
+            for label, code, it in (('verify', rc, items), ('verify --keep-going', rc2, items2)):
+                if code == 0:
+                    ctx.violation('spec', f'gemato {label} {d} exited 0 although the Manifest of the top directory cannot be opened ({how}): '
+                                  'an unreadable Manifest was treated as non-existent',
+                                  {'tree': describe(t), 'path': d, 'outer_manifest': how, 'exit': code, 'log': it})
+                else:
+                    done += 1
+    ctx.count('cli:unreadable-outer-manifest', n, n, dist={'runs_not_succeeding': done})
 
 
 # --------------------------------------------------------------------------- C16
